@@ -214,6 +214,11 @@ func registerExternals(w *World) {
 	}
 	x[zzPkg+".MapOrder"] = func(fr *frame, args []value) (value, bool) {
 		fr.in.mapOrder = args[0].(bool)
+		if fr.in.mapOrder && fr.in.mapOrderBudget == 0 {
+			// every range over a map with >= 2 entries becomes a decision (natural or
+			// reversed order); the budget bounds the number of such decisions per path
+			fr.in.mapOrderBudget = 10
+		}
 		return nil, true
 	}
 	x[zzPkg+".UF64"] = func(fr *frame, args []value) (value, bool) {
@@ -686,6 +691,74 @@ func registerExternals(w *World) {
 	x["strconv.AppendUint"] = appInt
 
 	// ---- native fast paths (concrete arguments only) ----
+	// strconv.ParseUint / ParseInt / Atoi on a string that is exactly one decimal numeral atom
+	// read the number back (used as fallback of the native bridges below)
+	parseAtom := func(signedResult bool) externalFn {
+		return func(fr *frame, args []value) (value, bool) {
+			in := fr.in
+			ss, isSym := args[0].(*SymStr)
+			if !isSym || len(ss.E) != 1 {
+				panic(unsupported{"strconv.Parse* on a symbolic string that is not a single numeral atom"})
+			}
+			at, isAtom := ss.E[0].(*Atom)
+			if !isAtom || !(at.Verb == "%d" || at.Verb == "%v") || !kindInt(at.K) {
+				panic(unsupported{"strconv.Parse* on a symbolic string that is not a single numeral atom"})
+			}
+			bits := 64
+			if len(args) >= 3 {
+				if b := int(asInt64(args[1])); b != 10 && b != 0 {
+					panic(unsupported{"strconv.Parse* of a numeral atom with a base other than 10"})
+				}
+				if bs := int(asInt64(args[2])); bs != 0 {
+					bits = bs
+				}
+			} else if signedResult {
+				bits = 64 // Atoi: int
+			}
+			tp := in.tp
+			ws := kindWidth(at.K)
+			var v64 *Term
+			if kindSigned(at.K) {
+				v64 = tp.SignExt(64-ws, at.T)
+				if !signedResult {
+					// a negative numeral is a syntax error for ParseUint
+					neg := tp.bvCmp(OpBVSlt, at.T, tp.BV(0, ws))
+					if in.decide(neg, "ParseUint sign") {
+						return tuple{uint64(0), in.w.mkError("strconv.ParseUint: invalid syntax")}, true
+					}
+				}
+			} else {
+				v64 = tp.ZeroExt(64-ws, at.T)
+			}
+			if bits < 64 {
+				var fits *Term
+				if signedResult {
+					lo, hi := tp.BV(uint64(-(int64(1) << (bits - 1))), 64), tp.BV(uint64(int64(1)<<(bits-1)-1), 64)
+					fits = tp.And(tp.bvCmp(OpBVSle, lo, v64), tp.bvCmp(OpBVSle, v64, hi))
+				} else {
+					fits = tp.bvCmp(OpBVUlt, v64, tp.BV(uint64(1)<<bits, 64))
+				}
+				if !in.decide(fits, "strconv.Parse* range") {
+					if signedResult {
+						return tuple{int64(0), in.w.mkError("strconv.ParseInt: value out of range")}, true
+					}
+					return tuple{uint64(0), in.w.mkError("strconv.ParseUint: value out of range")}, true
+				}
+			} else if signedResult && !kindSigned(at.K) && ws == 64 {
+				panic(unsupported{"strconv.ParseInt of a 64-bit unsigned numeral atom"})
+			}
+			if signedResult {
+				if len(args) < 3 { // Atoi returns int
+					return tuple{in.mk(types.Int, v64), iface{}}, true
+				}
+				return tuple{in.mk(types.Int64, v64), iface{}}, true
+			}
+			return tuple{in.mk(types.Uint64, v64), iface{}}, true
+		}
+	}
+	x["strconv.ParseUint"] = parseAtom(false)
+	x["strconv.ParseInt"] = parseAtom(true)
+	x["strconv.Atoi"] = parseAtom(true)
 	nat := func(name string, fn any) {
 		prev := x[name]
 		x[name] = nativeBridge(w, fn, prev)
